@@ -52,7 +52,7 @@ def project(model_bytes):
     if b.data is None:
       bufs.append({"len": -1, "sha": "none"})
     else:
-      raw = np.asarray(b.data, dtype=np.uint8).tobytes()
+      raw = bytes(b.data) if isinstance(b.data, (bytes, bytearray)) else np.asarray(b.data, dtype=np.uint8).tobytes()
       bufs.append({"len": len(raw), "sha": _h(raw)})
   subs = []
   for sg in (m.subgraphs or []):
